@@ -353,6 +353,36 @@ def _getattr(ex, st, args, kwargs, k, where):
     return fn(ex, st, v, name, k, where)
 
 
+@builtin("int.from_bytes")
+def _int_from_bytes(ex, st, args, kwargs, k, where):
+    """int.from_bytes(b, "big"|"little", signed=...): an uninterpreted function of the bytes (per byte order and
+    signedness); non-negative when unsigned; never raises for a bytes argument"""
+    b = ex.unwrap(args[0])
+    order = args[1] if len(args) > 1 else kwargs.get("byteorder")
+    signed = kwargs.get("signed")
+    if not isinstance(b, VBytes) or not isinstance(order, VStr) or order.lit not in ("big", "little"):
+        raise Unsupported(f"int.from_bytes form at {where}")
+    sg = "u"
+    if signed is not None:
+        if not (isinstance(signed, VBool) and signed.t.s in ("true", "false")):
+            raise Unsupported(f"int.from_bytes with a computed signed flag at {where}")
+        sg = "s" if signed.t.s == "true" else "u"
+    t = _ufun(ex, f"int_from_bytes_{order.lit}_{sg}", [SEQI], INT, b.t)
+    st = st.copy()
+    if sg == "u":
+        st.pc.append(Le(I(0), t))
+    return k(st, VInt(t))
+
+
+@builtin("issubclass")
+def _issubclass(ex, st, args, kwargs, k, where):
+    """issubclass(<class token>, <class of the package>): an uninterpreted predicate of the token and the class"""
+    tok, cv = args
+    if not isinstance(tok, VAny) or not (isinstance(cv, VPy) and cv.what == "class"):
+        raise Unsupported(f"issubclass form at {where}")
+    return k(st, VBool(_ufun(ex, "tok_subclass", [INT, INT], BOOL, tok.t, ex.class_id(cv.obj.name))))
+
+
 @builtin("setattr")
 def _setattr(ex, st, args, kwargs, k, where):
     v, name, val = args
@@ -460,6 +490,13 @@ def _s_replace(ex, st, base, args, kwargs, k, where):
 @method("VList", "append")
 def _l_append(ex, st, base, args, kwargs, k, where):
     v = args[0]
+    if isinstance(base.elem, KPrim) and base.elem.name.startswith("Any") and (v is VNone or isinstance(v, VOpt)):
+        # None stored in a list of opaque values: a distinguished token
+        nt = ex.decls.const("none$token", INT)
+        if v is VNone:
+            v = VAny(nt)
+        elif hasattr(v.inner, "t") and v.inner.t.sort == INT:
+            v = VAny(Ite(v.isnone, nt, v.inner.t))
     c = to_comps(ex.coerce(st, v, base.elem), base.elem, lambda so: ex.arbitrary(so))
     if len(c) != 1:
         raise Unsupported("append of a multi-component value")
